@@ -60,6 +60,7 @@ def run_case(mods, recs, simp, obs):
         substs[key] = None if k['repl']['t'] == 'DEL' else F.build_nodes(
             Node, (k['repl'], ), expand, cache)[0]
     decls = F.build_nodes(Node, simp['decls'], expand, cache)
+    repls = dict(substs)     # apply consumes identity keys
     s = mu.Simplification(substs, decls)
     bad = []
     signal.signal(signal.SIGVTALRM, _alarm)
@@ -91,6 +92,57 @@ def run_case(mods, recs, simp, obs):
         bad.append(('tokens', f'result tokens {" ".join(got_toks)!r}, '
                     f'specified {" ".join(exp_toks)!r}'))
         return bad
+    # GenSubst!GroupIsSequential: a group of two identity keys with new
+    # replacements (what ddmin merges into one step) equals its members
+    # applied one after the other, in either order
+    if (len(simp['ids']) == 2 and not simp['sts'] and not simp['decls']
+            and all(k['kind'] in ('del', 'leaf', 'tree') for k in simp['ids'])
+            and len({x.id for x in F.dfs_nodes(base)}) ==
+            len(F.dfs_nodes(base))):
+        # the group as ddmin itself builds it: the real TaskGenerator over a
+        # stub mutator whose proposals are the members
+        class Stub:
+            def filter(self, node):
+                return node.id in repls
+
+            def mutations(self, node):
+                return [mu.Simplification({node.id: repls[node.id]}, [])]
+
+        try:
+            sd = mods['strategy_ddmin']
+            task = next(sd.TaskGenerator(base, None, Stub()))
+            grp = list(sd._simp(base, task.simplifications))
+            grp_toks = [F.tokens_of_nested(F.nested_of_nodes(
+                [g] if isinstance(g, Node) else (g or []))) for g in grp]
+        except Exception as e:  # noqa
+            grp_toks = ['raised ' + repr(e)]
+        if grp_toks != [exp_toks]:
+            bad.append(('ddmin-group',
+                        f'the group ddmin builds from the two members gives '
+                        f'{grp_toks!r}, specified {" ".join(exp_toks)!r}'))
+        for order in ((0, 1), (1, 0)):
+            cur = base
+            try:
+                for i in order:
+                    k = simp['ids'][i]
+                    one = mu.Simplification({k['id']: repls[k['id']]}, [])
+                    cur = mu.apply_simp(cur, one)
+                    if isinstance(cur, Node):
+                        cur = [cur]
+                    if cur is None:
+                        cur = []
+                seq_toks = F.tokens_of_nested(F.nested_of_nodes(cur))
+            except Exception as e:  # noqa
+                bad.append(('group-sequential',
+                            'applying the members one by one raised ' +
+                            repr(e)))
+                break
+            if seq_toks != exp_toks:
+                bad.append(('group-sequential',
+                            f'members applied one by one (order {order}) '
+                            f'give {" ".join(seq_toks)!r}, the group '
+                            f'{" ".join(exp_toks)!r}'))
+                break
     # identities: every specified (non-zero) identity must be found in place
     exp_nodes = []
 
